@@ -1,6 +1,6 @@
 HOOK_COMMITS = []
 ENGINES = [
-    {"name": "explore", "path": "vf/core/explore.py", "serves_properties": ["C01", "C03", "C08", "C09", "C11", "C13", "C14", "C15", "C16", "C17"], "kind_free_text": "explicit-state BFS with state merging over the real objects; bounded product enumeration; deviation-bounded stateless DFS"},
+    {"name": "explore", "path": "vf/core/explore.py", "serves_properties": ["C01", "C02", "C03", "C07", "C08", "C09", "C11", "C13", "C14", "C15", "C16", "C17", "C18"], "kind_free_text": "explicit-state BFS with state merging over the real objects; bounded product enumeration; deviation-bounded stateless DFS"},
     {"name": "vloop", "path": "vf/core/vloop.py", "serves_properties": ["C10", "C19"], "kind_free_text": "virtual asyncio event loop stepped by hand: ready-queue steps, environment events and timers are explicit choices explored exhaustively by explore.dfs"},
 ]
 NOT_APPLICABLE = {}
@@ -82,5 +82,17 @@ CHECKS = {
         technique="bounded exhaustive enumeration of URL reconstruction inputs and component-replacement subsets against component-wise expectations",
         text="Reconstruction over 4 schemes x 6 server addresses x 4 Host values x 2 root paths x 7 paths x 3 queries from a WSGI environ and an ASGI scope (compared with the components and with each other); replacement over 12 base URLs (named/IPv4/IPv6, user/password/port present or not) x every subset of <=4 (thorough: all 8) components x 1-3 new values each incl. passwords with '@', ':' and '%40'; the three query helpers on 6 base queries against list-of-pairs semantics; repr password masking.",
         note="finite value menus; two known findings ('?' and '#' in the decoded path) are listed in known_findings.json",
+    ),
+    "C02": dict(
+        engine="explore", level="exploration", design_ref="DESIGN.md §3 C02",
+        technique="bounded exhaustive enumeration of (file size, chunk size, Range, If-Range, method, interface) against a set-semantics range reference and a sequential multipart/byteranges reader",
+        text="8 (thorough 15) file sizes x chunk sizes {1,2,4,default} x every ordered set of <=2 (3) range specs over {0,1,2,size-1,size,size+1} plus digit-boundary and malformed headers x GET/HEAD x WSGI, ASGI and ASGI with the zero-copy-send extension; If-Range in 7 forms on a 22-header subset. Status, Content-Range, exact slices, multipart part framing and order, declared length = bytes sent, HEAD = GET headers with empty body, ASGI event protocol incl. more_body of zero-copy messages.",
+        note="zero-copy server is a model of the extension text; sizes <= 1000; boundary pinned by seeding random",
+    ),
+    "C07": dict(
+        engine="explore", level="exploration", design_ref="DESIGN.md §3 C07",
+        technique="bounded exhaustive enumeration of request paths x app kinds x interfaces x directory spellings against a lexical resolver, with an audit hook on open()",
+        text="Every path of <=3 (thorough 4) segments over a 14-symbol alphabet (dot segments, empty segments, '..name', percent sequences, non-ASCII, index/page names) with and without trailing slash x Files/Pages x WSGI/ASGI x directory given as absolute path, relative path (working directory changed after construction) or package-relative, on a real temporary tree with parent/sibling decoys ('rootx', 'root.html', same-named files above); served bytes, not-found, redirect target (followed once) compared with a hand-written lexical resolver; every open() below the sandbox but outside the directory is a violation.",
+        note="no symlinks; POSIX; trailing slash on a file path may be served or not found",
     ),
 }
